@@ -129,8 +129,13 @@ where
         self.executor.run_all();
         verif_point!("core.after_run_all");
 
-        while let Some(capability_event) = self.capability_events.receive() {
+        loop {
+            // Take the model lock before taking the next event off the queue, so that two
+            // threads processing concurrently apply events in the order they were emitted
             let mut model = self.model.write().expect("Model RwLock was poisoned.");
+            let Some(capability_event) = self.capability_events.receive() else {
+                break;
+            };
             let command = self
                 .app
                 .update(capability_event, &mut model, &self.capabilities);
